@@ -1,4 +1,6 @@
 import Driver.Offsets
+import Driver.Tracker
+import Driver.Params
 /-!
 fbdriver: reads `<id>\t<input>\t<impl observation>` lines on stdin, runs the model of the chosen
 component on `<input>` and prints one verdict line per case:
@@ -13,6 +15,8 @@ open Firebolt
 def dispatch (comp : String) : Option (String → String → Verdict) :=
   match comp with
   | "offsets" => some Offsets.check
+  | "tracker" => some Tracker.check
+  | "params" => some Params.check
   | _ => none
 
 partial def loop (h : IO.FS.Stream) (out : IO.FS.Stream) (f : String → String → Verdict) : IO Unit := do
